@@ -9,6 +9,7 @@ package main
 import (
 	"fmt"
 	"go/types"
+	"strings"
 
 	"golang.org/x/tools/go/ssa"
 )
@@ -60,6 +61,48 @@ func (fc *fnCtx) checkGuarded(st *State, fr *frame, ins ssa.Instruction, ad *Add
 	goal := fmt.Sprintf("(or (select %s %s) (>= (atime %s) %s))", held, maddr, ad.Base, fc.top.entryT)
 	fc.emit(st, fc.oblName(fr, fmt.Sprintf("guarded.%s@%s", kind, fc.instrLabel(fr, ins))), "guarded",
 		fmt.Sprintf("%s of %s.%s happens with %s held (or on an object this call allocated)", kind, named.Obj().Name(), fname, mutex), fc.posOf(ins), goal, []string{"C04", "C19"})
+}
+
+// globalMutexAddr: the address term of a package-level mutex variable (what Lock/Unlock receive).
+func (fc *fnCtx) globalMutexAddr(st *State, qualified string) string {
+	return fc.addrTerm(st, &Addr{Kind: "global", Region: "global." + qualified})
+}
+
+// checkGlobalAccess: a package-level variable declared `global NAME guarded_by MUTEX` is read and
+// written only with the mutex held; a write to any other package-level variable by a function under
+// contract needs `modifies global(NAME)` (C19: instances and classes share no hidden mutable state).
+func (fc *fnCtx) checkGlobalAccess(st *State, fr *frame, ins ssa.Instruction, ad *Addr, write bool) (guard string) {
+	q := strings.TrimPrefix(ad.Region, "global.")
+	kind := "read"
+	if write {
+		kind = "write"
+	}
+	if g := fc.e.contracts.GlobalGuard[q]; g != "" {
+		maddr := fc.globalMutexAddr(st, g)
+		held := fc.region(st, "M.held", "(Array U Bool)")
+		fc.emit(st, fc.oblName(fr, fmt.Sprintf("guarded.%s.global.%s@%s", kind, q[strings.Index(q, ".")+1:], fc.instrLabel(fr, ins))), "guarded",
+			fmt.Sprintf("%s of package-level variable %s happens with %s held", kind, q, g), fc.posOf(ins), sel(held, maddr), []string{"C19"})
+		return maddr
+	}
+	if write {
+		fc.checkWrite(st, fr, fc.instrLabel(fr, ins), ad.Region, "")
+	}
+	return ""
+}
+
+// checkMapGuard: operations on a map that was loaded from a guarded package-level variable need the mutex too.
+func (fc *fnCtx) checkMapGuard(st *State, fr *frame, ins ssa.Instruction, m Val, write bool) {
+	g, ok := st.ghost["guard:"+m.T]
+	if !ok {
+		return
+	}
+	kind := "read"
+	if write {
+		kind = "write"
+	}
+	held := fc.region(st, "M.held", "(Array U Bool)")
+	fc.emit(st, fc.oblName(fr, fmt.Sprintf("guarded.map%s@%s", kind, fc.instrLabel(fr, ins))), "guarded",
+		kind+" of a registry map happens with its mutex held", fc.posOf(ins), sel(held, g), []string{"C19"})
 }
 
 // addrInstr finds the FieldAddr behind a load/store instruction.
